@@ -244,7 +244,7 @@ class ElementList(MutableSequence):
             # take it back from the end of the list and put it at the requested position
             child.parent = self.element
             self.remove(child)
-        elif not self._can_add_child(child):
+        elif not self._can_add_child(child) or child in self.list:
             return
         try:
             if by_name_index == -1:
@@ -264,6 +264,8 @@ class ElementList(MutableSequence):
         """
         if self._can_add_child(child):
             if self.element == child.parent:
+                if child in self.list:  # it is already a child of the element
+                    return
                 self._remove_from_traversal_index(child)
                 self.list.append(child)
                 try:
